@@ -25,6 +25,7 @@ class CCfg:
     kwargs: bool = True
     setup: bool = False
     flavours: str = "s"
+    twin: bool = False  # reachability twin: the harness ends with check(False), which must come back violated
     features: str = "all"  # "act": only programs with an activation edge (used by the C10 check)
 
 
@@ -292,6 +293,8 @@ def run_compose(cfg: CCfg, c: Ctx) -> Any:
             c.check(False, "second composition from the same original raised %r" % (e,), prop="C19", data=data)
             raise
         c.check(veq(got2, want), "second composition from the same original computes something else", prop="C19", data=data)
+    if cfg.twin:
+        c.check(False, "reachability twin: the end of the harness is reachable", prop="TWIN")
     c.cover("states", hash(repr(data)))
     return data
 
